@@ -14,5 +14,6 @@ def run(ctx):
     return run_parts(ctx, [
         Part('joins', 'corr_joins', 'run', [s, 300 if q else 6000, MEASURES], specs={'complete_spec'}),
         Part('formulas', 'corr_formulas', 'run_std', [s, 600 if q else 6000]),
-        Part('index_code', 'corr_index', 'run', [s, 150 if q else 3000]),
+        Part('index_code', 'corr_index', 'run', [s, 150 if q else 3000], count_exceptions=False),
+        Part('join_loop_code', 'corr_joingen', 'run', [s, 150 if q else 3000], count_exceptions=False),
     ], RULE)
